@@ -65,6 +65,9 @@ where
 
     // Let's take control, we know what we're doing
     let mut manually_drop = ManuallyDrop::new(input);
+    // Verification hook (guard: cfg(kani)): from here on a refusal would leak the vector.
+    #[cfg(kani)]
+    kani::cover!(true, "verif: the vector has been taken out of the drop machinery");
     let slice = manually_drop.as_mut_slice();
 
     // From now on, slice is divided into 3 areas:
